@@ -1292,6 +1292,20 @@ Proof.
   eexists. eexists. vm_compute. repeat split.
 Qed.
 
+(** why [send_response(head, false)]: were the head of a response with an EMPTY [Response::body] sent with END_STREAM
+    ("a response without a body is complete with its head"), the HTTP/2 client of a streamed response would get an empty
+    body — every write of the future fails on the ended stream — while the HTTP/1.1 client gets the streamed bytes *)
+Lemma head_end_of_stream_refuted_lemma : exists v st h cs,
+  concat cs <> [] /\
+  receive H1 M_GET (pipe_send H1 true v st (ensure_length H1 (N.of_nat (length (concat cs))) h) None cs)
+    = WResp (mkResp v st (h1_connection (ensure_length H1 (N.of_nat (length (concat cs))) h)) (concat cs)) /\
+  receive H2 M_GET (pipe_send H2 true v st h None cs) = WResp (mkResp v st (h2_strip h) []) /\
+  receive H2 M_GET (pipe_send H2 false v st h None cs) = WResp (mkResp v st (h2_strip h) (concat cs)).
+Proof.
+  exists V11, 200, [(B "content-type", B "text/plain")], [B "first "; B "second"].
+  split; [discriminate|]. split; [vm_compute; reflexivity|]. split; vm_compute; reflexivity.
+Qed.
+
 (** ---------------------------------------------------------------------------------------------
     request bodies: which bytes [read_to_bytes(max_len)] returns
     --------------------------------------------------------------------------------------------- *)
